@@ -24,8 +24,8 @@ package main
 //   if [init;] cond {                 where the call is init's sole RHS / the
 //   switch [init;] tag {               first thing cond/tag evaluates
 //   return x, h(a)                   (other results free of side effects)
-// Helpers with defer, recover, labels, type parameters or variadic parameters,
-// and recursive helpers, are not inlined.
+// Helpers with recover, labels or type parameters, and recursive helpers, are not inlined; a
+// variadic helper is inlined where its extra arguments are written out (f(a, b), not f(s...)).
 
 import (
 	"bytes"
@@ -129,14 +129,17 @@ type inliner struct {
 	edits   map[string][]textEdit
 	sites   int
 	log     []string
-	next    ast.Stmt // the statement that follows the one being examined, in the same list
-	deferOK bool     // the current statement is in a position where a deferring helper may be inlined
+	next    ast.Stmt   // the statement that follows the one being examined, in the same list
+	rest    []ast.Stmt // at the top level of a function: all statements after the one being examined
+	deferOK bool       // the current statement is in a position where a deferring helper may be inlined
+	overlay map[string][]byte
 }
 
 type calleeInfo struct {
 	decl *ast.FuncDecl
 	file *ast.File
 	name string
+	pkg  *packages.Package // the package the helper is declared in
 	// hasDefer: the body defers plain calls (`defer mu.Unlock()`); such a helper can only
 	// be inlined where the caller returns right after the call, so that "at the helper's
 	// exit" and "at the caller's exit" are the same moment.
@@ -147,11 +150,38 @@ type calleeInfo struct {
 func normaliseNewHelpers(fset *token.FileSet, pkgs []*packages.Package, overlay map[string][]byte, round int) (map[string][]byte, []string, error) {
 	out := map[string][]byte{}
 	var log []string
+	// exported functions of internal packages that the pinned tree does not have (a helper shared by
+	// two packages in place of duplicated code): not API, inlined back wherever they are called
+	xcallees := map[*types.Func]*calleeInfo{}
+	for _, p := range pkgs {
+		if !isRepoPkg(p.PkgPath) || p.TypesInfo == nil || !strings.Contains(p.PkgPath+"/", "/internal/") {
+			continue
+		}
+		tmp := &inliner{fset: fset, pkg: p}
+		for _, f := range p.Syntax {
+			for _, d := range f.Decls {
+				fd, ok := d.(*ast.FuncDecl)
+				if !ok || fd.Body == nil || !fd.Name.IsExported() || fd.Recv != nil || baselineFuncs[declKey(p.PkgPath, fd)] {
+					continue
+				}
+				obj, _ := p.TypesInfo.Defs[fd.Name].(*types.Func)
+				if obj == nil {
+					continue
+				}
+				if ok, hasDefer := tmp.eligible(fd, obj); ok && !hasDefer {
+					xcallees[obj] = &calleeInfo{decl: fd, file: f, name: fd.Name.Name, pkg: p}
+				}
+			}
+		}
+	}
 	for _, p := range pkgs {
 		if !isRepoPkg(p.PkgPath) || p.TypesInfo == nil {
 			continue
 		}
-		in := &inliner{fset: fset, pkg: p, round: round, callees: map[*types.Func]*calleeInfo{}, src: map[string][]byte{}, edits: map[string][]textEdit{}}
+		in := &inliner{fset: fset, pkg: p, round: round, callees: map[*types.Func]*calleeInfo{}, src: map[string][]byte{}, edits: map[string][]textEdit{}, overlay: overlay}
+		for o, ci := range xcallees {
+			in.callees[o] = ci
+		}
 		for _, f := range p.Syntax {
 			for _, d := range f.Decls {
 				fd, ok := d.(*ast.FuncDecl)
@@ -169,7 +199,7 @@ func normaliseNewHelpers(fset *token.FileSet, pkgs []*packages.Package, overlay 
 				if !ok {
 					continue
 				}
-				in.callees[obj] = &calleeInfo{decl: fd, file: f, name: fd.Name.Name, hasDefer: hasDefer}
+				in.callees[obj] = &calleeInfo{decl: fd, file: f, name: fd.Name.Name, hasDefer: hasDefer, pkg: p}
 			}
 		}
 		if len(in.callees) == 0 {
@@ -244,7 +274,7 @@ func applyEdits(src []byte, eds []textEdit) ([]byte, error) {
 // eligible: can this helper's body be spliced into a caller?
 func (in *inliner) eligible(fd *ast.FuncDecl, obj *types.Func) (bool, bool) {
 	sig := obj.Type().(*types.Signature)
-	if sig.Variadic() || sig.TypeParams() != nil || sig.RecvTypeParams() != nil {
+	if sig.TypeParams() != nil || sig.RecvTypeParams() != nil {
 		return false, false
 	}
 	if fd.Recv != nil {
@@ -299,14 +329,70 @@ func (in *inliner) eligible(fd *ast.FuncDecl, obj *types.Func) (bool, bool) {
 // ---- walking caller bodies ------------------------------------------------------------------
 
 func (in *inliner) walkList(file *ast.File, encl *ast.FuncDecl, list []ast.Stmt) {
+	top := encl != nil && encl.Body != nil && len(list) > 0 && len(list) == len(encl.Body.List) && list[0] == encl.Body.List[0]
 	for i, s := range list {
 		in.next = nil
+		in.rest = nil
 		if i+1 < len(list) {
 			in.next = list[i+1]
+			if top {
+				in.rest = list[i+1:]
+			}
 		}
 		in.walkStmt(file, encl, s)
 	}
 	in.next = nil
+	in.rest = nil
+}
+
+// restIsPureTail: the statement being examined is at the top level of its function and everything
+// after it only tests values and returns them — `if err != nil { return false, err }; return size >
+// -1, nil`. What a helper defers then runs, for every purpose of the analysis, at the same moment
+// whether it runs at the helper's exit or at the caller's.
+func (in *inliner) restIsPureTail() bool {
+	if len(in.rest) == 0 {
+		return false
+	}
+	var pureTail func(s ast.Stmt) bool
+	pureTail = func(s ast.Stmt) bool {
+		switch x := s.(type) {
+		case *ast.ReturnStmt:
+			for _, r := range x.Results {
+				if !in.pure(r) {
+					return false
+				}
+			}
+			return true
+		case *ast.IfStmt:
+			if x.Init != nil || !in.pure(x.Cond) {
+				return false
+			}
+			for _, b := range x.Body.List {
+				if !pureTail(b) {
+					return false
+				}
+			}
+			if x.Else != nil {
+				return pureTail(x.Else)
+			}
+			return true
+		case *ast.BlockStmt:
+			for _, b := range x.List {
+				if !pureTail(b) {
+					return false
+				}
+			}
+			return true
+		}
+		return false
+	}
+	for _, s := range in.rest {
+		if !pureTail(s) {
+			return false
+		}
+	}
+	_, endsInReturn := in.rest[len(in.rest)-1].(*ast.ReturnStmt)
+	return endsInReturn
 }
 
 // returnsNext: the statement after the current one is a return of side-effect-free results.
@@ -402,7 +488,7 @@ type site struct {
 
 func (in *inliner) siteOf(e ast.Expr) *site {
 	call, ok := ast.Unparen(e).(*ast.CallExpr)
-	if !ok || call.Ellipsis.IsValid() {
+	if !ok {
 		return nil
 	}
 	info := in.pkg.TypesInfo
@@ -414,7 +500,15 @@ func (in *inliner) siteOf(e ast.Expr) *site {
 		}
 	case *ast.SelectorExpr:
 		sel := info.Selections[f]
-		if sel == nil || sel.Kind() != types.MethodVal {
+		if sel == nil {
+			// pkg.Helper(...): a new exported helper of an internal package
+			obj, _ := info.Uses[f.Sel].(*types.Func)
+			if ci := in.callees[obj]; ci != nil && obj.Type().(*types.Signature).Recv() == nil && (!ci.hasDefer || in.deferOK) {
+				return &site{call: call, callee: ci, obj: obj}
+			}
+			return nil
+		}
+		if sel.Kind() != types.MethodVal {
 			return nil
 		}
 		obj, _ := sel.Obj().(*types.Func)
@@ -611,7 +705,7 @@ func (in *inliner) tryStmt(file *ast.File, encl *ast.FuncDecl, s ast.Stmt) bool 
 	case *ast.ReturnStmt:
 		in.deferOK = len(x.Results) == 1
 	case *ast.ExprStmt, *ast.AssignStmt:
-		in.deferOK = in.returnsNext()
+		in.deferOK = in.returnsNext() || in.restIsPureTail()
 	}
 	switch x := s.(type) {
 	case *ast.ReturnStmt:
@@ -954,6 +1048,17 @@ func (in *inliner) expand(file *ast.File, st *site, at token.Pos, mode string, t
 		}
 		in.src[cfile] = b
 	}
+	cinfo := info // the helper's own package
+	var cpkg *types.Package = in.pkg.Types
+	if st.callee.pkg != nil && st.callee.pkg != in.pkg {
+		cinfo = st.callee.pkg.TypesInfo
+		cpkg = st.callee.pkg.Types
+		if b, ok := in.overlay[cfile]; ok {
+			in.src[cfile] = b
+		}
+	}
+	xpkg := cpkg != in.pkg.Types
+	var identEdits []textEdit // qualification of the helper's package-level names (file offsets)
 	callerFile := in.fileOf(at)
 	// qualifier for type text in the caller's file
 	imports := map[string]string{} // path -> local name
@@ -994,13 +1099,13 @@ func (in *inliner) expand(file *ast.File, st *site, at token.Pos, mode string, t
 	declared := map[types.Object]bool{}
 	ast.Inspect(fd, func(n ast.Node) bool {
 		if id, ok := n.(*ast.Ident); ok {
-			if o := info.Defs[id]; o != nil {
+			if o := cinfo.Defs[id]; o != nil {
 				declared[o] = true
 			}
 		}
 		// the per-clause variable of `switch x := v.(type)` is an implicit object of its clause
 		if cc, ok := n.(*ast.CaseClause); ok {
-			if o := info.Implicits[cc]; o != nil {
+			if o := cinfo.Implicits[cc]; o != nil {
 				declared[o] = true
 			}
 		}
@@ -1014,7 +1119,7 @@ func (in *inliner) expand(file *ast.File, st *site, at token.Pos, mode string, t
 			return false
 		case *ast.KeyValueExpr:
 			if _, isId := x.Key.(*ast.Ident); isId {
-				if _, isField := info.Uses[x.Key.(*ast.Ident)].(*types.Var); isField && info.Uses[x.Key.(*ast.Ident)].(*types.Var).IsField() {
+				if _, isField := cinfo.Uses[x.Key.(*ast.Ident)].(*types.Var); isField && cinfo.Uses[x.Key.(*ast.Ident)].(*types.Var).IsField() {
 					ast.Inspect(x.Value, visit)
 					return false
 				}
@@ -1025,8 +1130,19 @@ func (in *inliner) expand(file *ast.File, st *site, at token.Pos, mode string, t
 		if !ok {
 			return true
 		}
-		o := info.Uses[id]
+		o := cinfo.Uses[id]
 		if o == nil || declared[o] {
+			return true
+		}
+		if xpkg && o.Pkg() == cpkg && o.Parent() == cpkg.Scope() {
+			// a package-level name of the helper's package: spelled pkg.Name at the call site
+			if !o.Exported() {
+				captureOK = false
+				in.log = append(in.log, "  unexported name of another package: "+id.Name)
+				return true
+			}
+			q := qual(cpkg)
+			identEdits = append(identEdits, textEdit{in.off(id.Pos()), in.off(id.Pos()), q + "."})
 			return true
 		}
 		_, at2 := scope.LookupParent(id.Name, at)
@@ -1087,14 +1203,40 @@ func (in *inliner) expand(file *ast.File, st *site, at token.Pos, mode string, t
 		fmt.Fprintf(&b, "var %s %s = %s\n", t, rtxt, expr)
 		params = append(params, pdecl{name, rtxt, t})
 	}
-	if len(st.call.Args) != sig.Params().Len() {
+	spread := st.call.Ellipsis.IsValid() // f(a, s...): the variadic parameter is s itself
+	if spread && (!sig.Variadic() || len(st.call.Args) != sig.Params().Len()) {
+		return "", false
+	}
+	if sig.Variadic() && !spread {
+		// f(a, b, c) with f(x T, rest ...E): the explicit arguments of the variadic parameter
+		// become a slice literal (nil when there are none)
+		if mode == "literal" || len(st.call.Args) < sig.Params().Len()-1 {
+			return "", false
+		}
+		if len(st.call.Args) == 1 && sig.Params().Len() > 1 {
+			if _, isTuple := info.TypeOf(st.call.Args[0]).(*types.Tuple); isTuple {
+				return "", false
+			}
+		}
+	} else if len(st.call.Args) != sig.Params().Len() {
 		return "", false // f(g()) with a tuple-valued g
 	}
 	for i := 0; i < sig.Params().Len(); i++ {
 		p := sig.Params().At(i)
 		ttxt := types.TypeString(p.Type(), qual)
 		t := fmt.Sprintf("%sa%d", pfx, i)
-		fmt.Fprintf(&b, "var %s %s = %s\n", t, ttxt, in.text(callerFile, st.call.Args[i].Pos(), st.call.Args[i].End()))
+		if sig.Variadic() && !spread && i == sig.Params().Len()-1 {
+			val := "nil"
+			if len(st.call.Args) > i {
+				if _, isTuple := info.TypeOf(st.call.Args[i]).(*types.Tuple); isTuple {
+					return "", false
+				}
+				val = ttxt + "{" + in.text(callerFile, st.call.Args[i].Pos(), st.call.Args[len(st.call.Args)-1].End()) + "}"
+			}
+			fmt.Fprintf(&b, "var %s %s = %s\n", t, ttxt, val)
+		} else {
+			fmt.Fprintf(&b, "var %s %s = %s\n", t, ttxt, in.text(callerFile, st.call.Args[i].Pos(), st.call.Args[i].End()))
+		}
 		name := p.Name()
 		if name == "" {
 			name = "_"
@@ -1154,6 +1296,24 @@ func (in *inliner) expand(file *ast.File, st *site, at token.Pos, mode string, t
 		return "", false
 	}
 	label := pfx + "L"
+	// text of a range of the helper's file with its package-level names qualified
+	qtext := func(a, b token.Pos) string {
+		lo, hi := in.off(a), in.off(b)
+		var eds []textEdit
+		for _, e := range identEdits {
+			if e.start >= lo && e.start < hi {
+				eds = append(eds, textEdit{e.start - lo, e.end - lo, e.text})
+			}
+		}
+		if len(eds) == 0 {
+			return in.text(cfile, a, b)
+		}
+		out, err := applyEdits([]byte(in.text(cfile, a, b)), eds)
+		if err != nil {
+			return in.text(cfile, a, b)
+		}
+		return string(out)
+	}
 	// body with returns rewritten
 	bodyStart, bodyEnd := fd.Body.Lbrace+1, fd.Body.Rbrace
 	var redits []textEdit
@@ -1171,7 +1331,7 @@ func (in *inliner) expand(file *ast.File, st *site, at token.Pos, mode string, t
 			}
 			var exprs string
 			if len(rs.Results) > 0 {
-				exprs = in.text(cfile, rs.Results[0].Pos(), rs.Results[len(rs.Results)-1].End())
+				exprs = qtext(rs.Results[0].Pos(), rs.Results[len(rs.Results)-1].End())
 			} else if named {
 				var ns []string
 				for i := 0; i < nres; i++ {
@@ -1201,6 +1361,17 @@ func (in *inliner) expand(file *ast.File, st *site, at token.Pos, mode string, t
 			redits = append(redits, textEdit{in.off(rs.Pos()) - base, in.off(rs.End()) - base, repl})
 			return true
 		})
+	}
+	for _, e := range identEdits {
+		inReturn := false
+		for _, re := range redits {
+			if e.start-base >= re.start && e.start-base < re.end {
+				inReturn = true
+			}
+		}
+		if !inReturn && e.start >= base && e.start < in.off(bodyEnd) {
+			redits = append(redits, textEdit{e.start - base, e.end - base, e.text})
+		}
 	}
 	body, err := applyEdits([]byte(in.text(cfile, bodyStart, bodyEnd)), redits)
 	if err != nil {
